@@ -259,6 +259,11 @@ End Process.
 
 (* an entry is kept iff the filter accepts it and every directory above it
    (relative to the walk root r): s is the path below r *)
+(* paths::ignore_filter after `fix: --gitignore never filters the source root itself`:
+   the entry at depth 0 (relative path []) is kept whatever the matcher says about it *)
+Definition root_kept (keep : rel -> bool -> bool) : rel -> bool -> bool :=
+  fun q d => match q with [] => true | _ => keep q d end.
+
 Fixpoint kept_suffix (keep : rel -> bool -> bool) (r : rel) (s : rel) (d : bool) : bool :=
   match s with
   | [] => keep r d
